@@ -48,9 +48,9 @@ type c20Meta struct {
 	MinSized bool                `json:"min_sized"`
 	Cycle    bool                `json:"cross_file_cycle"`
 	// CrossPkgCombo / CrossPkgAnyOf: an allOf/anyOf (resp. anyOf) branch $ref crosses packages
-	CrossPkgCombo bool `json:"crosspackage_combinator_ref"`
-	CrossPkgAnyOf bool `json:"crosspackage_anyof_ref"`
-	Pkgs     map[string]string   `json:"pkgs"` // package base name -> path
+	CrossPkgCombo bool              `json:"crosspackage_combinator_ref"`
+	CrossPkgAnyOf bool              `json:"crosspackage_anyof_ref"`
+	Pkgs          map[string]string `json:"pkgs"` // package base name -> path
 }
 
 func expectedRouting(w *World, f *SFile) (outAbs, pkgPath string) {
